@@ -100,11 +100,14 @@ def gen_case(rng, tier):
     rs = np.random.RandomState(rng.getrandbits(32))
     c = rng.randint(1, 4)
     d = rng.randint(1, 4)
+    if rng.random() < 0.12:  # real UBMs are large: two-digit (and more) component counts
+        c = rng.choice([9, 10, 11, 12, 16, 21, 33, 101, 128])
+        d = rng.randint(1, 6)
     scale = 10.0 ** rng.uniform(-1, 1)
     scale2 = scale * scale
     means = sig6(rs.randn(c, d) * 2 * scale)
     variances = sig6(rs.uniform(0.3, 2.0, size=(c, d)) * scale2)
-    n = rng.randint(max(3, c), 14)
+    n = rng.randint(max(3, min(c, 20)), 24)
     X = sig6(means[rs.randint(0, c, size=n)] + rs.randn(n, d) * scale)
     probe = sig6(rs.randn(4, d) * 2.5 * scale)
     if rng.random() < 0.65:
@@ -122,7 +125,7 @@ def gen_case(rng, tier):
             "max_steps": max_steps, "thr": thr,
             "pretrain": rng.choice([0, 0, 1, 2]),
             "X": L(X), "probe": L(probe), "chain": _gen_chain(rng, True),
-            "legacy_at": rng.choice([None, 0]),
+            "legacy_at": 0 if c > 8 else rng.choice([None, 0]),
         }
     src = rng.choice(["acc", "acc", "zero", "values"])
     return {
@@ -320,6 +323,7 @@ def _run_machine(case, rec, store):
         live.max_fitting_steps = case["max_steps"]
         rec.probe("pretrained")
     rec.probe("map_machine", case["kind"] == "map")
+    rec.probe("machine_with_10_or_more_components", case["c"] >= 10)
     rec.probe("limit_none", case["max_steps"] is None)
     rec.probe("threshold_none", case["thr"] is None)
     rec.probe("nondefault_threshold", case["thr"] not in (None, 1e-5))
